@@ -63,6 +63,7 @@ def run(ctx):
                 hostile.append(("imports-%d-x%d" % (n, k), many_imports(hello["blob"], n, k)))
             except Exception as e:
                 ctx.cov["imports_generator_error"] = str(e)[:200]
+        envx = dict(envx or {}, PATH=os.path.join(tdir, "bin") + ":" + os.environ.get("PATH", ""))
         d = vmd.Daemon(tdir, td, env_extra=envx)
 
         def health(after):
@@ -74,6 +75,13 @@ def run(ctx):
                 return False
             if not d.ping():
                 oracle_fail.append({"after": after, "why": "daemon does not answer PING", "stderr": d.stderr_text()[-400:]})
+                return False
+            # the daemon's own bookkeeping: a STATUS session counts itself, so the reported number is at least 1 whatever
+            # happened before (sessions still winding down only raise it)
+            n = d.active_clients()
+            if n is None or n < 1:
+                oracle_fail.append({"after": after, "why": "STATUS reports active_clients=%r while this very session is active: the session counter lost count" % n,
+                                    "stderr": d.stderr_text()[-400:]})
                 return False
             m = rng.choice(mods[:2] + mods[3:])
             got = d.exec_blob(m["blob"])
@@ -167,8 +175,67 @@ def run(ctx):
                     break
             if ok:
                 ok = health("abandoned sessions")
+        # 4b. a session whose FFI co-process dies while the program is busy elsewhere: whatever the session makes of it,
+        #     the daemon stays (its writes to the dead co-process must not raise a fatal SIGPIPE)
+        if ok:
+            os.makedirs(os.path.join(td, "ffi"), exist_ok=True)
+            fm = c17.compile_all(tdir, os.path.join(td, "ffi"), [("ffi-spin", 'extern fn labs(x: int) -> int\nfn main() -> int {\n    let mut r: int = 0\n    unsafe { set r (labs -65) }\n'
+                                  '    (println r)\n    (println "armed")\n    let mut i: int = 0\n    while (< i 4000000) {\n        set i (+ i 1)\n    }\n    (println "done")\n    return 7\n}\nshadow main { assert (== 1 1) }\n')])
+            for rnd in range(1 if quick else 4):
+                if not fm or not ok:
+                    break
+                try:
+                    s4 = d.connect(60.0)
+                    s4.sendall(vmd.header(vmd.MSG_LOAD_EXEC, len(fm[0]["blob"])) + fm[0]["blob"])
+                    time.sleep(0.5 + 0.2 * rnd)
+                    kids = subprocess.run(["pgrep", "-P", str(d.proc.pid)], stdout=subprocess.PIPE).stdout.decode().split()
+                    killed = 0
+                    for k in kids:
+                        try:
+                            if b"nano_cop" in open("/proc/%s/cmdline" % k, "rb").read():
+                                os.kill(int(k), 9); killed += 1
+                        except (OSError, ValueError):
+                            pass
+                    rep4 = vmd.read_replies(s4)
+                except OSError as e:
+                    rep4, killed = {"error": str(e)}, -1
+                ctx.case("coprocess killed mid-session round %d" % rnd)
+                ctx.count("coprocess_killed_mid_session" if killed > 0 else "coprocess_not_found")
+                ok = health("a session whose FFI co-process was killed while the program was running (killed=%d, session result %s)" % (killed, str({x: rep4.get(x) for x in ("out", "exit", "error")})[:160]))
         alive_end = d.alive()
         d.stop()
+        # 5. a daemon with an idle timeout: ill-formed sessions first, then a session that runs longer than the timeout -
+        #    it must be served to its end (the idle shutdown is for a daemon without clients)
+        if ok:
+            spin = os.path.join(td, "spin.nano")
+            open(spin, "w").write('fn main() -> int {\n    (println "start")\n    let mut i: int = 0\n    let mut acc: int = 0\n    while (< i 9000000) {\n'
+                                  '        set acc (+ acc (% i 7))\n        set i (+ i 1)\n    }\n    (println acc)\n    (println "end")\n    return 3\n}\nshadow main { assert (== 1 1) }\n')
+            os.makedirs(os.path.join(td, "spin"), exist_ok=True)
+            sm = c17.compile_all(tdir, os.path.join(td, "spin"), [("spin", open(spin).read())])[0]
+            for nbad in ((1,) if quick else (1, 2, 3)):
+                d3 = vmd.Daemon(tdir, td, env_extra=envx, idle_timeout=2)
+                for _ in range(nbad):
+                    try:
+                        s3 = d3.connect(5.0); s3.sendall(vmd.header(vmd.MSG_PING, 0, version=9)); s3.close()
+                    except OSError:
+                        pass
+                time.sleep(0.2)
+                res3 = {}
+                ths = [threading.Thread(target=lambda k=k: res3.__setitem__(k, d3.exec_blob(sm["blob"], timeout=120.0))) for k in range(nbad)]
+                for t in ths:
+                    t.start()
+                for t in ths:
+                    t.join()
+                steps += 1
+                ctx.case("idle-timeout after %d ill-formed sessions" % nbad)
+                for k in range(nbad):
+                    got = res3.get(k, {"error": "no result"})
+                    if "error" in got or b"end" not in (got.get("out") or b"") or not c17.exit_eq(got.get("exit"), 3):
+                        oracle_fail.append({"after": "%d session(s) with a bad protocol version on a daemon started with --idle-timeout 2" % nbad,
+                                            "why": "a session that runs longer than the idle timeout is cut short", "daemon": str({x: got.get(x) for x in ("out", "err", "exit", "error")})[:300],
+                                            "stderr": d3.stderr_text()[-300:]})
+                        ok = False
+                d3.stop()
         # model tie: replies the model predicts for the probes whose replies we read
         probes = [("ping", vmd.header(vmd.MSG_PING, 0)), ("unknown type 9", vmd.header(9, 0)), ("zero-length exec", vmd.header(vmd.MSG_LOAD_EXEC, 0)),
                   ("flags set ping", vmd.header(vmd.MSG_PING, 0, flags=0xffff)), ("wrong version", vmd.header(vmd.MSG_PING, 0, version=2)),
